@@ -46,7 +46,11 @@ pub fn run(run: &mut Run) {
             guarded(acc, "c06", STREAM_INEXACT, i, |acc| {
                 let mut r = Rng::derive(seed, STREAM_INEXACT, i);
                 let shape = r.usize(crate::shapes::N_SHAPES);
-                crate::with_shape!(shape, inexact_case(&mut r, acc, i));
+                if i % 16 == 5 {
+                    crate::with_shape!(shape, landing_case(&mut r, acc, i));
+                } else {
+                    crate::with_shape!(shape, inexact_case(&mut r, acc, i));
+                }
             });
         }
     });
@@ -212,6 +216,63 @@ fn exact_case<S: Shape>(spec: &AnimSpec, r: &mut Rng, acc: &mut Acc, index: u64,
         }
     }
     acc.sample(2, || case(&reference_segs, "all compositions of every interval agreed bit-for-bit with this single-step schedule"));
+}
+
+/// A `Times(n)` timeline with a cycle off the dyadic grid is delivered cycle by cycle (so that some step lands on
+/// the f32 total, where `is_ended()` may already hold while the position is still the start of a further cycle —
+/// DESIGN §9.8), in one step, or in halves; every schedule then continues well past the end. Whatever happened at
+/// the landing instant, the values a second or more after the end depend on the total time only: all schedules
+/// must show bit-identical (terminal) values there.
+fn landing_case<S: Shape>(r: &mut Rng, acc: &mut Acc, index: u64) {
+    let mut spec = random_anim::<S>(r);
+    let Some(st) = (0..5).find(|k| spec.animated(*k)) else { return };
+    let (c, n) = (*r.pick(&[0.1f32, 0.3, 0.7, 0.15, 0.6]), *r.pick(&[1u32, 2, 4, 6]));
+    spec.states[st].truncate(1);
+    {
+        let t = &mut spec.states[st][0];
+        t.cycle = c;
+        t.delay = *r.pick(&[0.0f32, 0.0, 0.1, 0.25]);
+        t.repeat = Rep::Times(n);
+    }
+    let total = spec.total(st);
+    if !total.is_finite() {
+        return;
+    }
+    let d = spec.states[st][0].delay;
+    let tail = [c, 1.0f32, 0.0, 64.0];
+    let mut schedules: Vec<Vec<f32>> = Vec::new();
+    let mut by_cycle: Vec<f32> = if d > 0.0 { vec![d] } else { vec![] };
+    by_cycle.extend(std::iter::repeat(c).take(n as usize + 1));
+    schedules.push(by_cycle);
+    schedules.push(vec![total as f32]);
+    schedules.push(vec![(total / 2.0) as f32, (total / 2.0) as f32]);
+    schedules.push(vec![(total + 2.0) as f32]);
+    let mut finals: Vec<(S, bool)> = Vec::new();
+    for sch in &schedules {
+        let mut a = build_anim::<S>(&spec);
+        a.set_state(&STATES[(st + 1) % 5]);
+        a.advance(0.125);
+        a.set_state(&STATES[st]);
+        for x in sch.iter().chain(tail.iter()) {
+            a.advance(*x);
+        }
+        acc.eval();
+        finals.push((a.current_values().clone(), a.is_ended()));
+    }
+    for (k, fin) in finals.iter().enumerate().skip(1) {
+        if !same_all(&fin.0, &finals[0].0) || fin.1 != finals[0].1 {
+            acc.violation(
+                "c06:after-landing-on-the-end",
+                format!(
+                    "state {st} (cycle {c}, Times({n}), delay {d}): delivered as {:?} then {:?} the values are {:?} (ended {}), delivered as {:?} then the same tail they are {:?} (ended {})",
+                    schedules[0], tail, finals[0].0.vals(), finals[0].1, schedules[k], fin.0.vals(), fin.1
+                ),
+                case_json(STREAM_INEXACT, index, vec![("shape", J::s(S::NAME)), ("animator", spec.json()), ("state", J::U(st as u64)), ("clause", J::s("values well after the end depend on the total time only"))]),
+            );
+            return;
+        }
+    }
+    acc.sig(format!("landing|c={c}|n={n}|delay={}", d > 0.0));
 }
 
 fn inexact_case<S: Shape>(r: &mut Rng, acc: &mut Acc, index: u64) {
